@@ -179,23 +179,34 @@ def spec_push(ctx, m, method, M, eager_inv):
 
 
 def spec_digest(ctx, m, method, M):
-    ok = False
-    detail = ''
+    """every return path: value == (Pb << 16) | Pa with Pa == a, Pb == b (mod M) and both in [0, M-1]"""
+    n = 0
     for env, box in m.returns:
         v = env.get(0)
+        parts = env.get(-1)
         if v is None or v[0] != 'p':
             continue
-        p = v[1]
-        # p == 65536 * Rb + Ra with Ra == a (mod M), Rb == b (mod M), both < M
-        ss = p.syms()
-        rb_s = [s for s in ss if p.t.get(((s, 1),), 0) == 65536]
-        ra_s = [s for s in ss if p.t.get(((s, 1),), 0) == 1]
-        detail = str(p)
-        if len(rb_s) == 1 and len(ra_s) == 1 and len(p.t) == 2:
-            ra, rb = m.residue(Poly.sym(ra_s[0])), m.residue(Poly.sym(rb_s[0]))
-            in_range = box.bounds(Poly.sym(ra_s[0]))[1] <= M - 1 and box.bounds(Poly.sym(rb_s[0]))[1] <= M - 1
-            ok = ra == Poly.sym('A') and rb == Poly.sym('B') and in_range
-    ctx.check(ok, 'C17.O2', method + ':value', 'digest == ((b mod M) << 16) | (a mod M)', '%s returns %s, not ((b mod M) << 16) | (a mod M)' % (method, detail), 'src/checksum.rs (%s)' % method)
+        n += 1
+        ok = False
+        detail = str(v[1])
+        if parts is not None:
+            hi_part, lo_part = parts[1]
+            # which operand is the shifted one?
+            if not all(c % 65536 == 0 for c in hi_part.t.values()):
+                hi_part, lo_part = lo_part, hi_part
+            if all(c % 65536 == 0 for c in hi_part.t.values()) and hi_part.t:
+                pb = Poly({k: c // 65536 for k, c in hi_part.t.items()})
+                pa = lo_part
+                ra, rb = m.residue(pa), m.residue(pb)
+                la, ha = box.bounds(pa)
+                lb, hb = box.bounds(pb)
+                in_range = la >= 0 and lb >= 0 and ha <= M - 1 and hb <= M - 1
+                ok = ra == Poly.sym('A') and rb == Poly.sym('B') and in_range
+                detail = 'low part %s in [%d, %d] == %s; high part %s in [%d, %d] == %s (mod M)' % (pa, la, ha, ra, pb, lb, hb, rb)
+        ctx.check(ok, 'C17.O2', method + ':value', 'digest == ((b mod M) << 16) | (a mod M)',
+                  '%s does not return ((b mod M) << 16) | (a mod M) with both components below 65521: %s' % (method, detail[:300]), 'src/checksum.rs (%s)' % method)
+    if n == 0:
+        ctx.bad('C17.O2', method + ':value', '%s returns no integer value' % method, 'src/checksum.rs (%s)' % method)
 
 
 def spec_len(ctx, m, method):
